@@ -47,6 +47,17 @@ func (it *item) Decode(bz []byte) xerrors.XError {
 type real struct {
 	dir string
 	l   *ledger.FinalityLedger[*item]
+	old []*oldHandle
+}
+
+// oldHandle: a historical handle kept open across later commits. The node never keeps one across ABCI calls and
+// IAVL serves a handle opened for the then-latest version from its fast index, so keys DELETED later are not stable
+// (DESIGN §9.2 observation); a key that still exists must keep answering the value of the handle's version.
+type oldHandle struct {
+	il      ledger.ILedger[*item]
+	k       uint64
+	ans     string
+	tainted bool
 }
 
 func openReal(dir string) (*real, error) {
@@ -113,6 +124,11 @@ func (r *real) apply(ws []string) (out string) {
 		if xerr != nil {
 			return "err"
 		}
+		for _, oh := range r.old {
+			if it, e := r.l.Read(keyOf(oh.k)); e != nil || it == nil {
+				oh.tainted = true // the key was deleted after the handle was opened
+			}
+		}
 		return fmt.Sprintf("ver %d", v)
 	case "readAt":
 		n, _ := strconv.ParseInt(ws[1], 10, 64)
@@ -121,7 +137,23 @@ func (r *real) apply(ws []string) (out string) {
 			return "err"
 		}
 		k := keyOf(u(2))
+		for _, oh := range r.old {
+			if oh.tainted {
+				continue
+			}
+			if now := val(oh.il.Read(keyOf(oh.k))); now != oh.ans {
+				return oh.ans + " but-a-handle-opened-earlier-for-that-version-now-answers " + now
+			}
+		}
 		a := val(il.Read(k))
+		if strings.HasPrefix(a, "val ") && a != "val none" {
+			if il2, e2 := r.l.ImmutableLedgerAt(n, 0); e2 == nil {
+				if len(r.old) >= 4 {
+					r.old = r.old[1:]
+				}
+				r.old = append(r.old, &oldHandle{il: il2, k: u(2), ans: a})
+			}
+		}
 		// the handle's own (initially empty) overlay must answer the committed value too
 		if b := val(il.Get(k)); b != a {
 			return a + " but-Get-answers " + b
@@ -147,6 +179,7 @@ func (r *real) apply(ws []string) (out string) {
 		}
 		return a
 	case "reopen":
+		r.old = nil
 		_ = r.l.Close()
 		nr, err := openReal(r.dir)
 		if err != nil {
